@@ -31,6 +31,7 @@ from io import BytesIO
 from liquer.constants import *
 import liquer.util as util
 import hashlib
+import uuid
 from liquer.metadata import Metadata
 import traceback
 
@@ -482,7 +483,9 @@ class FileStore(Store):
     def store(self, key, data, metadata):
         self.path_for_key(key).parent.mkdir(parents=True, exist_ok=True)
         self.metadata_path_for_key(key).parent.mkdir(parents=True, exist_ok=True)
-        temporary_path = self.metadata_path_for_key(key).with_suffix(".tmp")
+        temporary_path = self.metadata_path_for_key(key).with_suffix(
+            f".{uuid.uuid4().hex}.tmp"
+        )
         temporary_path.write_bytes(data)
         temporary_path.replace(self.path_for_key(key))
         self.store_metadata(
